@@ -166,7 +166,7 @@ func c10ModelR(run *ev.Run, kind string, abs, idle int, ids []string, replicas b
 			evs = append(evs, seqx.Event{Kind: "Remove", Who: id})
 		}
 	}
-	evs = append(evs, seqx.Event{Kind: "Advance", Adv: 1})
+	evs = append(evs, seqx.Event{Kind: "Advance", Adv: 1}, seqx.Event{Kind: "Advance", Adv: 2})
 	// the clean-up routine of the store interface: enforcement must not depend on it (histories without it are all
 	// there), and running it is not a use of any session
 	evs = append(evs, seqx.Event{Kind: "Sweep"})
@@ -363,7 +363,7 @@ func c10ModelR(run *ev.Run, kind string, abs, idle int, ids []string, replicas b
 func c10Pairs() [][2]int { return [][2]int{{0, 0}, {0, 3}, {3, 0}, {3, 5}, {3, 3}, {5, 3}} }
 
 func c10Run(run *ev.Run) {
-	run.Rule = "store level, virtual clock: for every (absolute, idle) pair in {(0,0),(0,3),(3,0),(3,5),(3,3),(5,3)} s and both stores (built with the constructors PreRun uses), BFS over all histories of {write tokens, write login state, read tokens, read login state, clear login state, advance 1 s} on one id (two in thorough), with and without calls of RemoveAllExpired in between (which must neither be needed nor count as a use); oracle: a relation tracked as a set of candidate abstract sessions (created c, last use u): a read must return nothing past c+A or u+I and must return the data up to one second before both limits; class = (store, read kind, outcome, pair)"
+	run.Rule = "store level, virtual clock: for every (absolute, idle) pair in {(0,0),(0,3),(3,0),(3,5),(3,3),(5,3)} s and both stores (built with the constructors PreRun uses), BFS over all histories of {write tokens, write login state, read tokens, read login state, clear login state, advance 1 s} on one id (two in thorough), with and without calls of RemoveAllExpired in between (which must neither be needed nor count as a use); oracle: a relation tracked as a set of candidate abstract sessions (created c, last use u): a read must return nothing past c+A or u+I and must return the data up to one second before both limits; plus, at handler level, BFS over histories of whole checks (login from a prefix, token expiry, refresh with a rotating provider, logout) with an absolute time-out of 900 s (and an idle one of 800 s): no OK for a session older than the limit; class = (store, read kind, outcome, pair)"
 	run.Assumptions = []string{
 		"one second of granularity: at exactly c+A / u+I either answer is accepted",
 		"whether a read that finds the session but not the requested part, or a clear, counts as 'use' is left open (both candidates are kept)",
@@ -417,6 +417,39 @@ func c10Run(run *ev.Run) {
 					run.Cap(fmt.Sprintf("%s (%d,%d) two ids: stopped at depth %d", kind, p[0], p[1], st.DepthDone))
 				}
 			}
+		}
+	}
+	// handler level: the same limits seen through whole checks (login, token expiry, refresh with a rotating provider,
+	// logout) - what the handler does around the store (removing and re-creating a session, say) must not move them
+	for _, spec := range []world.Spec{
+		{Store: "memory", Forward: true, Logout: true, Abs: 900, TokenLife: 600},
+		{Store: "redis", Forward: true, Logout: true, Abs: 900, TokenLife: 600},
+		{Store: "memory", Forward: true, Logout: true, Abs: 900, Idle: 800, TokenLife: 600},
+		{Store: "redis", Forward: true, Logout: true, Abs: 900, Idle: 800, TokenLife: 600},
+	} {
+		spec := spec
+		o := c01Opts("quick", spec)
+		mon := func(h *hSys, ob *hObs, hist []seqx.Event) {
+			if ob.Res.OK {
+				if why := c01Justify(h, ob); why == "session-past-its-absolute-timeout" {
+					run.Violation(fmt.Sprintf("C10 honoured-past-limit limits=abs store=%s handler-level", spec.Store),
+						fmt.Sprintf("request %+v answered OK although the session's entry is older than the absolute time-out of %d s", ob.Req, spec.Abs),
+						c01Replay{Spec: spec, History: append(append([]seqx.Event{}, hist...), ob.Event)})
+				}
+				run.Class(fmt.Sprintf("handler|%s|idle=%d|OK", spec.Store, spec.Idle))
+			}
+		}
+		m := o.model(mon)
+		m.MaxDepth = 5
+		if run.Tier == "thorough" {
+			m.MaxDepth = 6
+		}
+		st := seqx.Explore(run, m)
+		total.States += st.States
+		total.Transitions += st.Transitions
+		total.Histories += st.Histories
+		if !st.Complete {
+			run.Cap(fmt.Sprintf("handler level %s: stopped at depth %d", spec.Store, st.DepthDone))
 		}
 	}
 	run.States, run.Transitions, run.Traces, run.Evals = total.States, total.Transitions, total.Histories, total.Transitions
@@ -664,6 +697,20 @@ func c10RealTime(run *ev.Run) {
 }
 
 func c10ReplayFn(path string) int {
+	var hr c01Replay
+	if _, err := loadReplay(path, &hr); err == nil && hr.Spec.Store != "" {
+		// handler-level artefact
+		violated := false
+		o := c01Opts("quick", hr.Spec)
+		m := o.model(func(h *hSys, ob *hObs, hist []seqx.Event) {
+			if ob.Res.OK && c01Justify(h, ob) == "session-past-its-absolute-timeout" {
+				violated = true
+			}
+		})
+		s := seqx.Replay(m, hr.History)
+		s.Close()
+		return replayVerdict("C10", violated, "")
+	}
 	var rp c10Replay
 	if _, err := loadReplay(path, &rp); err != nil {
 		fmt.Println(err)
